@@ -174,7 +174,7 @@ func TestVerifC09Overload(t *testing.T) {
 	defer rec.Close()
 	rng := kit.Rand("c09-overload")
 	secret := func() []byte { b := make([]byte, 32); rng.Read(b); return b }
-	for _, workers := range []int{10, 20, 57} {
+	for _, workers := range []int{3, 7, 10, 20, 57} { // 3 and 7: workers/10 = 0, i.e. no shallow buffer at all
 		for rep := 0; rep < kit.Tier(2, 10); rep++ {
 			label := fmt.Sprintf("workers=%d rep=%d", workers, rep)
 			rec.Case(label)
@@ -195,6 +195,19 @@ func TestVerifC09Overload(t *testing.T) {
 					return false
 				}
 			}
+			// all workers up and parked at the (possibly unbuffered) job channel before anything is offered
+			kitWait(20*time.Second, func() bool {
+				gs := kit.InFunc(kit.Stacks(), "lib.(*RegistrationManager).startIngestThread")
+				if len(gs) != workers {
+					return false
+				}
+				for _, g := range gs {
+					if !g.Blocked() {
+						return false
+					}
+				}
+				return true
+			})
 			// phase A: occupy every worker (one message at a time, waiting until it is inside the probe)
 			n := 0
 			okA := true
@@ -368,7 +381,13 @@ func TestVerifC09Stress(t *testing.T) {
 				time.Sleep(500 * time.Microsecond)
 			}
 		}
-		prod.Wait()
+		prodDone := make(chan struct{})
+		go func() { prod.Wait(); close(prodDone) }()
+		if !c09WatchProgress(rec, prodDone, func() int64 {
+			return lookups.Load() + sweeps.Load() + reloads.Load() + atomic.LoadInt64(&e.rm.totalIngestMessages)
+		}, round) {
+			return
+		}
 		kitWait(30*time.Second, func() bool { return len(regChan) == 0 })
 		time.Sleep(20 * time.Millisecond)
 		close(stop)
@@ -425,5 +444,54 @@ func c09ReloadLoop(e *c09Env, stop chan struct{}, aux *sync.WaitGroup, reloads *
 		e.rm.OnReload(conf)
 		reloads.Add(1)
 		time.Sleep(500 * time.Microsecond)
+	}
+}
+
+// c09WatchProgress waits for done; if the progress counter stands still for 10 s and every goroutine
+// that is inside the station library is parked in a synchronisation wait on three scans 1 s apart, the
+// stress mix has deadlocked: that is reported at once (the parked goroutines cannot be recovered, so the
+// caller ends the test).
+func c09WatchProgress(rec *kit.Rec, done chan struct{}, progress func() int64, round int) bool {
+	last, lastChange := progress(), time.Now()
+	for {
+		select {
+		case <-done:
+			return true
+		case <-time.After(250 * time.Millisecond):
+		}
+		if cur := progress(); cur != last {
+			last, lastChange = cur, time.Now()
+			continue
+		}
+		if time.Since(lastChange) < 10*time.Second {
+			continue
+		}
+		stable := true
+		var states, stacks []string
+		for scan := 0; scan < 3 && stable; scan++ {
+			states = states[:0]
+			for _, g := range kit.InFunc(kit.Stacks(), "pkg/station/lib.(*Reg") {
+				states = append(states, g.State)
+				if !g.Blocked() {
+					stable = false
+				}
+				if scan == 0 && len(stacks) < 5 {
+					stacks = append(stacks, g.Raw)
+				}
+			}
+			if progress() != last {
+				stable = false
+			}
+			time.Sleep(time.Second)
+		}
+		if stable && len(states) > 0 {
+			rec.Violation("deadlock:stress-mix-blocked-forever", "ingest workers, handlers and the sweeper block each other: no progress and every goroutine inside the station library is parked on a lock",
+				map[string]interface{}{"round": round, "goroutine_states": states, "stacks": stacks})
+			return false
+		}
+		if time.Since(lastChange) > 4*time.Minute {
+			rec.Inconclusive("stress mix made no progress for 4 minutes but no stable blocked state was seen", round)
+			return false
+		}
 	}
 }
